@@ -3,6 +3,7 @@ package interpreter
 import (
 	"bufio"
 	"fmt"
+	"io"
 	"os"
 	"strings"
 	"time"
@@ -22,6 +23,21 @@ func (n NativeClockFn) Arity() int {
 
 func (n NativeClockFn) String() string {
 	return "<native fn>"
+}
+
+var (
+	stdinBuffered *bufio.Reader
+	stdinSource   *os.File
+)
+
+// stdinReader returns the buffered reader over os.Stdin shared by every input
+// call (a new one only if os.Stdin itself was replaced).
+func stdinReader() *bufio.Reader {
+	if stdinBuffered == nil || stdinSource != os.Stdin {
+		stdinSource = os.Stdin
+		stdinBuffered = bufio.NewReader(os.Stdin)
+	}
+	return stdinBuffered
 }
 
 // NativeInputFn defines the native `input` function for the interpreter.
@@ -52,11 +68,13 @@ func (n NativeInputFn) Call(i *Interpreter, arguments []interface{}) (interface{
 		fmt.Print(prompt)
 	}
 
-	// Read the input from the user
-	reader := bufio.NewReader(os.Stdin)
+	// Read the input from the user. One buffered reader is shared by all
+	// calls, so that what it buffered beyond the first line is not lost.
+	reader := stdinReader()
 	input, err := reader.ReadString('\n')
 	vhook.InputRead(len(input), err != nil)
-	if err != nil {
+	if err != nil && !(err == io.EOF && input != "") {
+		// a final line without a newline is still a line; only an empty read fails
 		return nil, fmt.Errorf("failed to read input: %v", err)
 	}
 
